@@ -4,6 +4,16 @@
 K = {"name": "TestKnown", "enum": True}
 
 CHECKS = {
+    "C20": {
+        "level": "exploration",
+        "tests": [
+            {"name": "TestC20Attr", "checks": [150, 600], "shards": [2, 16], "floor": 0.8},
+            {"name": "TestC20Family", "enum": True},
+            K,
+        ],
+        "assumptions": ["the expected member is computed with the reflect package (FieldByName, MethodByName, MapIndex) and printed through the engine's own {{ v }}",
+                        "x['name'] is only claimed for maps"],
+    },
     "C19": {
         "level": "exploration",
         "tests": [
